@@ -2,10 +2,11 @@
    For a stabilizer state rho = 2^-N sum_{s in group} s and a Pauli operator O, Tr(rho O) = sum_s 2^-N Tr(s O) is +1 if O is in the group, -1 if -O is, and 0
    otherwise (Tr sigma[g] = 2^N [g = identity], C15_trace_is_matrix_trace; the group contains each string at most once with one sign, C06_group_sign_unique).
    Proved here: expect1 returns exactly that classification, for every N, every rank and sign pattern.  The polynomial / monomial / single-Pauli paths are the
-   coefficient- and phase-weighted sums of these values (expect_poly below, mirroring the repaired code); overlaps and get_prob go through projection_trace
-   (invariant proved; values tied to the dense Tr(rho sigma) by the correspondence check).  PARTIAL: the group-sum expansion of rho itself is C19. *)
+   coefficient- and phase-weighted sums of these values (expect_poly below, mirroring the repaired code); overlaps and get_prob go through projection_trace, whose
+   value is proved to be Tr(rho P_1...P_k) and, divided by 2^r_sigma as the code does, Tr(rho sigma) (Proofs/OverlapFacts.v; pure rho, as the code requires).
+   The group-sum expansion of rho itself is C19; float arithmetic of the polynomial path is outside the model. *)
 From Coq Require Import QArith Qcanon.
-From PC Require Import Model.Base Model.Pauli Model.CMap Model.Tableau Model.Spec Model.Poly Proofs.TableauInv Proofs.MeasureFacts Model.PolySem Model.Sample Proofs.TraceFacts.
+From PC Require Import Model.Base Model.Pauli Model.CMap Model.Tableau Model.Spec Model.Poly Proofs.TableauInv Proofs.MeasureFacts Model.PolySem Model.Sample Proofs.TraceFacts Proofs.ProjectorFacts Proofs.OverlapFacts.
 Open Scope Z_scope.
 
 Theorem C07_expectation_plus_one : forall n t o, tableau_ok n t -> length (fst o) = n -> hermP o -> (expect1 t o = 1 <-> in_group n t o).
@@ -52,3 +53,20 @@ Theorem C07_trace_of_pauli_products : forall n a b, length (fst a) = n -> length
   (fst a <> fst b -> trace_sem n (pmulp [(c1, a)] [(c1, b)]) = c0).
 Proof. intros n a b Ha Hb. split; intro H; [exact (trace_pauli_product_same n a b Ha Hb H) | exact (trace_pauli_product_diff n a b Ha Hb H)]. Qed.
 Print Assumptions C07_trace_of_pauli_products.
+(* OVERLAPS.  For a pure rho and mutually commuting Hermitian observables the sequential-projection kernel returns Tr(rho P_1 ... P_k) (P_j = (1+O_j)/2),
+   and the state-state overlap the code computes (trace / 2^r_sigma) IS Tr(rho sigma); get_prob is the case sigma = computational basis state *)
+Theorem C07_projection_trace_is_the_trace : forall n t obs, tableau_ok n t -> rk t = 0%nat -> Forall (fun o => length (fst o) = n /\ hermP o) obs ->
+  (forall a b, In a obs -> In b obs -> acq (fst a) (fst b) = 0) ->
+  let '(_, zero, halv) := projection_trace t obs in
+  trace_sem n (pmulp (density_poly t) (proj_prod n obs)) = trace_value zero halv.
+Proof. exact projection_trace_value. Qed.
+Print Assumptions C07_projection_trace_is_the_trace.
+Theorem C07_overlap_is_trace_rho_sigma : forall n t s, tableau_ok n t -> rk t = 0%nat -> tableau_ok n s ->
+  let '(_, zero, halv) := projection_trace t (stabilizers s) in
+  trace_sem n (pmulp (density_poly t) (density_poly s)) = cmul (half_pow (rk s)) (trace_value zero halv).
+Proof. exact overlap_is_trace. Qed.
+Print Assumptions C07_overlap_is_trace_rho_sigma.
+Theorem C07_projector_product_is_the_state : forall n s k k', tableau_ok n s -> length k = n ->
+  amp (proj_prod n (stabilizers s)) k k' = cmul (two_pow (rk s)) (amp (density_poly s) k k').
+Proof. exact proj_prod_density. Qed.
+Print Assumptions C07_projector_product_is_the_state.
